@@ -580,6 +580,19 @@ where
     }
 }
 
+#[cfg(bma400_verif)]
+impl Gen1IntConfig {
+    pub(crate) fn verif_regs(&self) -> [(u8, u8); 11] {
+        verif_regs!(self; config0, config1, config2, config3, config31, config4, config5, config6, config7, config8, config9)
+    }
+}
+#[cfg(bma400_verif)]
+impl Gen2IntConfig {
+    pub(crate) fn verif_regs(&self) -> [(u8, u8); 11] {
+        verif_regs!(self; config0, config1, config2, config3, config31, config4, config5, config6, config7, config8, config9)
+    }
+}
+
 #[cfg(test)]
 mod tests {
     use super::*;
